@@ -238,9 +238,9 @@ static void run_data_trial(int idx)
 /* =============================== C16: cancellation =============================== */
 enum { K_TIMER, K_DATA, K_READ_PIPE, K_READ_SOCK, K_WRITE_PIPE, K_SIGNAL, K_N };
 static const char *const k_names[] = { "timer", "data_add", "read(pipe)", "read(socketpair)", "write(pipe)", "signal" };
-enum { P_BEFORE_ACTIVATE, P_AFTER_ACTIVATE, P_FROM_HANDLER, P_FROM_TARGET_ITEM, P_FOREIGN_RUNNING, P_SUSPENDED, P_DOUBLE, P_CANCEL_AND_WAIT, P_N };
+enum { P_BEFORE_ACTIVATE, P_AFTER_ACTIVATE, P_FROM_HANDLER, P_FROM_TARGET_ITEM, P_FOREIGN_RUNNING, P_SUSPENDED, P_DOUBLE, P_CANCEL_AND_WAIT, P_FROM_REGISTRATION_HANDLER, P_N };
 static const char *const p_names[] = { "before-activate", "right-after-activate", "from-own-handler", "from-item-on-serial-target", "foreign-while-events-flow",
-	"while-suspended", "double-cancel", "cancel_and_wait" };
+	"while-suspended", "double-cancel", "cancel_and_wait", "from-registration-handler" };
 
 typedef struct ccase {
 	int kind, point, serial;
@@ -342,6 +342,18 @@ static void c_cancel_handler(void *ctx)
 	atomic_store(&c->cdone, 1);
 }
 
+/* the registration handler is one of the source's own handlers and runs on the target queue: a cancel
+ * issued from it must prevent every event handler invocation, even when an event is already pending */
+static void c_registration_handler(void *ctx)
+{
+	ccase_t *c = ctx;
+	atomic_store(&c->cancel_origin, 1);
+	atomic_store(&c->cancel_call, vf_stamp());
+	dispatch_source_cancel(c->ds);
+	atomic_store(&c->cancel_ret, vf_stamp());
+	vf_progress();
+}
+
 static void target_item_cancel(void *ctx)
 {
 	ccase_t *c = ctx;
@@ -430,7 +442,26 @@ static void run_cancel_case(vf_rng_t *r, const char *desc, int forced_kind)
 	char ctx[96]; snprintf(ctx, sizeof(ctx), "cancel:%s:%s", k_names[c->kind], p_names[c->point]);
 	vf_watch_begin(ctx, 0);
 
-	if (c->point == P_BEFORE_ACTIVATE) {
+	if (c->point == P_FROM_REGISTRATION_HANDLER) {
+		dispatch_source_set_registration_handler_f(c->ds, c_registration_handler);
+		/* make an event pending before the source is installed */
+		switch (c->kind) {
+		case K_DATA: dispatch_source_merge_data(c->ds, 1); break;
+		case K_READ_PIPE: case K_READ_SOCK: { char b = 'z'; ssize_t n = write(c->peer, &b, 1); (void)n; break; }
+		case K_SIGNAL: kill(getpid(), c->sig); break;
+		default: break;   /* a pipe is writable at once; the timer starts now */
+		}
+		if (c->serial && vf_rnd_n(r, 2)) {
+			/* keep the serial target queue busy while the source is activated so that the event is latched
+			 * before the registration pass runs */
+			dispatch_queue_t tq = c->tq;
+			dispatch_async(tq, ^{ vf_spin_ns(300000); });
+		}
+		dispatch_activate(c->ds);
+		if (c->kind == K_DATA) dispatch_source_merge_data(c->ds, 1);
+		pthread_create(&fth, NULL, feeder_main, &f); have_feeder = 1;
+		while (!atomic_load(&c->cancel_ret)) { struct timespec w = { 0, 50000 }; nanosleep(&w, NULL); }
+	} else if (c->point == P_BEFORE_ACTIVATE) {
 		atomic_store(&c->cancel_origin, 3);
 		atomic_store(&c->cancel_call, vf_stamp());
 		dispatch_source_cancel(c->ds);
